@@ -71,14 +71,7 @@ func (c *chunkedBodyWriter) Write(p []byte) (n int, err error) {
 // above 4 KiB) would still reference at flush time, while the handler, which
 // goes on running after this write, may reuse it through any header setter.
 func (c *chunkedBodyWriter) writeHeaderCopy() error {
-	header := c.r.Header.Header()
-	c.r.Header.SetHeaderLength(len(header))
-	buf, err := c.w.Malloc(len(header))
-	if err != nil {
-		return err
-	}
-	copy(buf, header)
-	return nil
+	return WriteHeader(&c.r.Header, c.w)
 }
 
 func (c *chunkedBodyWriter) Flush() error {
